@@ -236,7 +236,9 @@ def pair_tag(view, p):
 def decision_margins(view, ep, k):
     """(name, relative margin) of every discrete decision taken at instant k
     of an epoch: lock engage/release, step loads, timers, rule windows,
-    dead-zone edge, stop thresholds.  Small margin = within rounding."""
+    dead-zone edge, stop thresholds.  Small margin = within rounding.
+    A margin inside gearpy's own comparison band (1e-12 in the unit of the
+    left operand, DESIGN 4.4) is reported as 0."""
     out = []
     scn, H = view.scn, view.H
     n = view.n_valid(ep)
@@ -246,6 +248,15 @@ def decision_margins(view, ep, k):
     d = ep['dump']
     t = d['time']
     tscale = max(abs(t[-1]), 1e-300) if t else 1.0
+    TWO_PI = 6.283185307179586
+    # the band is absolute in the unit of the left operand; the two
+    # executions of a differential may use different units, so take the
+    # largest time unit (hour)
+    tfac = 3600.0
+
+    def m(name, diff, scale, band):
+        diff = abs(diff)
+        out.append((name, 0.0 if diff <= band * 1.01 else diff / max(scale, 1e-300)))
     wN = view.series(ep, N - 1, SPD)
     aN = view.series(ep, N - 1, ACC)
     seg = view.seg_of(ep, k)
@@ -254,43 +265,50 @@ def decision_margins(view, ep, k):
         w_adv = wN[k - 1] + aN[k - 1] * dt
         sc = max(abs(wN[k - 1]), abs(aN[k - 1] * dt), 1e-300)
         if w_adv != 0:
-            out.append(('lock-engage', abs(w_adv) / sc))
+            m('lock-engage', w_adv, sc, 1e-12 * TWO_PI / view.R_tot)
         tq0 = view.series(ep, 0, TQ)[k - 1]
         sc = max(abs(view.series(ep, 0, DTQ)[k - 1]),
                  abs(view.series(ep, 0, LTQ)[k - 1]), 1e-300)
         if tq0 != 0:
-            out.append(('lock-release', abs(tq0) / sc))
+            m('lock-release', tq0, sc, 1e-12 * 1000.0)
     for term in (scn.get('load') or {}).get('terms', []):
         if term['t'] == 'step':
-            out.append(('load-step', abs(t[k] - term['t0']) / tscale))
+            m('load-step', t[k] - term['t0'], tscale, 0.0)
     pwm = view.series(ep, 0, 'pwm')
     dlim = rm.motor_dlim(view.mot)
     if dlim and pwm and k < len(pwm) and pwm[k] is not None:
-        out.append(('dead-zone', abs(abs(pwm[k]) - dlim) / max(dlim, 1e-300)))
+        m('dead-zone', abs(pwm[k]) - dlim, dlim, 0.0)
+    if pwm and k < len(pwm) and pwm[k]:
+        # the sign of a duty cycle that is zero up to rounding selects the
+        # branch of the motor law and the lock decision
+        m('duty-sign', pwm[k], 1.0, 0.0)
     if seg and seg['control']:
         for i, rule in enumerate(scn.get('rules', [])):
             kd = rule['kind']
             if kd == 'ConstantPWM':
-                s = si.q_si('Time', rule['start'])
-                e = s + si.q_si('TimeInterval', rule['duration'])
-                out.append(('timer-start', abs(t[k] - s) / tscale))
-                out.append(('timer-end', abs(t[k] - e) / tscale))
+                s_ = si.q_si('Time', rule['start'])
+                e_ = s_ + si.q_si('TimeInterval', rule['duration'])
+                m('timer-start', t[k] - s_, tscale, 1e-12 * tfac)
+                m('timer-end', t[k] - e_, tscale, 1e-12 * tfac)
             elif kd in ('StartProportional', 'StartLimitCurrent'):
                 p = view.chain.index(rule['enc'])
                 th = view.series(ep, p, POS)[k]
                 tg = si.q_si('AngularPosition', rule['target'])
-                out.append(('rule-target',
-                            abs(th - tg) / max(abs(th), abs(tg), 1e-300)))
+                m('rule-target', th - tg, max(abs(th), abs(tg)),
+                  1e-12 * TWO_PI)
             elif kd == 'ReachAngularPosition':
                 p = view.chain.index(rule['enc'])
                 th = view.series(ep, p, POS)[k]
                 tg = si.q_si('AngularPosition', rule['target'])
                 tb = si.q_si('Angle', rule['brake'])
                 L0 = view.series(ep, 0, LTQ)[k]
-                err = L0 / view.mot['Tmax'] * tb   # eta_t <= 1: lower bound
+                eta_t = 1.0
+                for x in view.eta[1:]:
+                    eta_t *= x
+                err = L0 / view.mot['Tmax'] * tb / eta_t
                 ths = tg - tb + err
-                out.append(('rule-brake-start',
-                            abs(th - ths) / max(abs(th), abs(tg), tb, 1e-300)))
+                m('rule-brake-start', th - ths, max(abs(th), abs(tg), tb),
+                  1e-12 * TWO_PI)
     if seg and seg['stop'] is not None:
         ss = scn['stops'][seg['stop']]
         var = {'encoder': POS, 'tachometer': SPD,
@@ -298,9 +316,9 @@ def decision_margins(view, ep, k):
         kind = {'encoder': 'AngularPosition', 'tachometer': 'AngularSpeed',
                 'amperometer': 'Current'}[ss['sensor']]
         p = view.chain.index(ss['target'])
-        s = view.series(ep, p, var)
-        if s and k < len(s) and s[k] is not None:
+        s_ = view.series(ep, p, var)
+        if s_ and k < len(s_) and s_[k] is not None:
             thr = si.q_si(kind, ss['thr'])
-            out.append(('stop-threshold',
-                        abs(s[k] - thr) / max(abs(s[k]), abs(thr), 1e-300)))
+            m('stop-threshold', s_[k] - thr, max(abs(s_[k]), abs(thr)),
+              1e-12 * max(si.UNITS[kind].values()))
     return out
